@@ -1,5 +1,6 @@
 import GoCo.Driver.RuntimeDrv
 import GoCo.Driver.CompileDrv
+import GoCo.Driver.ItersDrv
 open GoCo
 
 def handle (line : String) : String :=
@@ -11,7 +12,10 @@ def handle (line : String) : String :=
     | none =>
       match MG.compileRequest sx with
       | some r => r
-      | none => "bad-request"
+      | none =>
+        match Iters.itersRequest sx with
+        | some r => r
+        | none => "bad-request"
 
 partial def loop (h : IO.FS.Stream) (out : IO.FS.Stream) : IO Unit := do
   let line ← h.getLine
